@@ -51,6 +51,17 @@ def exec_case(case):
                 e.update({"fe": [], "fv": [], "deg": [], "local": [], "vte": [], "corners": []})
                 det = M.processing.FeatureEdgeDetector(only_border=bool(ev["only_border"]), flag_corners=bool(ev["flag_corners"]),
                                                        corner_order=ev["corner_order"], compute_feature_graph=bool(ev.get("graph", 0)), verbose=False)
+                warm = ev.get("warm", 0)
+                if warm == 1:
+                    det.run(m)                     # the same detector object used twice on the same mesh
+                elif warm == 2:
+                    # ... or first on another mesh: the same faces folded differently (other edges are sharp there)
+                    wr = random.Random(len(g["F"]) * 31 + g["n"])
+                    decoy = meshes.build_surface(g["n"], g["F"], coords=[[p[0], p[1], p[2] + wr.randint(-6, 6)] for p in g["P"]], edges=g.get("declared") or None)
+                    try:
+                        det.run(decoy)
+                    except Exception:
+                        pass                       # a degenerate decoy is of no interest
                 det.run(m)
                 fv = sorted(int(v) for v in det.feature_vertices)
                 e["fe"] = sorted(int(x) for x in det.feature_edges)
@@ -115,7 +126,7 @@ def run(ctx):
         evs = []
         for ob in (0, 1):
             for fc, co in ((1, 4), (1, 6), (0, 4), (1, 3)):
-                evs.append({"op": "features", "only_border": ob, "flag_corners": fc, "corner_order": co, "graph": rng.randint(0, 1)})
+                evs.append({"op": "features", "only_border": ob, "flag_corners": fc, "corner_order": co, "graph": rng.randint(0, 1), "warm": rng.choice([0, 0, 1, 2])})
         return evs
     pick = enum if thorough else rng.sample(enum, 400)
     for i, x in enumerate(pick):
